@@ -4,6 +4,7 @@ import (
 	"encoding/json"
 	"strconv"
 	"strings"
+	"unicode/utf8"
 )
 
 // ---- alphabets (DESIGN §4 C17) ----------------------------------------------
@@ -190,12 +191,22 @@ type ctx struct {
 // Groups may hold bytes that are not UTF-8, which encoding/json would replace;
 // they are stored as Go string literals.
 type ctxJSON struct {
-	G []string          `json:"groups_go_quoted"`
-	K map[string]string `json:"keys"`
+	G  []string          `json:"groups_go_quoted"`
+	K  map[string]string `json:"keys,omitempty"`
+	KQ map[string]string `json:"keys_go_quoted,omitempty"` // instead of keys when a value is not UTF-8
 }
 
 func (c ctx) MarshalJSON() ([]byte, error) {
 	j := ctxJSON{K: c.K}
+	for _, v := range c.K {
+		if !utf8.ValidString(v) {
+			j.K, j.KQ = nil, map[string]string{}
+			for k, v := range c.K {
+				j.KQ[k] = strconv.Quote(v)
+			}
+			break
+		}
+	}
 	for _, g := range c.G {
 		j.G = append(j.G, strconv.Quote(g))
 	}
@@ -208,6 +219,16 @@ func (c *ctx) UnmarshalJSON(b []byte) error {
 		return err
 	}
 	c.K = j.K
+	if j.KQ != nil {
+		c.K = map[string]string{}
+		for k, v := range j.KQ {
+			u, err := strconv.Unquote(v)
+			if err != nil {
+				return err
+			}
+			c.K[k] = u
+		}
+	}
 	c.G = nil
 	for _, g := range j.G {
 		u, err := strconv.Unquote(g)
@@ -233,6 +254,18 @@ type program struct {
 	family string
 	node   *Node
 	ctxs   []ctx
+	size   *sizeRef              // family "size": how to regenerate the program
+	forCap int                   // > 0: how far the model follows a @for in this program
+	build  func() (*Node, []ctx) // family "size": node and match are built when a shard owns the program
+}
+
+// materialize builds a lazily described program; false: it does not exist.
+func (p *program) materialize() bool {
+	if p.build != nil {
+		p.node, p.ctxs = p.build()
+		p.build = nil
+	}
+	return p.node != nil
 }
 
 // enumerate calls f for every program of the tier, in a fixed order.
@@ -264,11 +297,11 @@ func enumerate(quick bool, f func(p *program) bool) {
 	// the first witness of a defect is a small program
 	for _, s := range sources() {
 		cs := ctxsOf(s)
-		if !f(&program{"chain0", s.node, cs}) {
+		if !f(&program{family: "chain0", node: s.node, ctxs: cs}) {
 			return
 		}
 		for _, o1 := range ops {
-			if !f(&program{"chain1", o1.build(s.node), cs}) {
+			if !f(&program{family: "chain1", node: o1.build(s.node), ctxs: cs}) {
 				return
 			}
 		}
@@ -295,7 +328,7 @@ func enumerate(quick bool, f func(p *program) bool) {
 	for _, d := range []string{",", "::", "é", "aa", "a:", ":,:"} {
 		sp := call("@split", grp(1), lit(d))
 		for _, n := range []*Node{sp, call("@join", sp, lit(d)), call("@len", sp), call("@select", sp, num(1)), call("@slice", sp, num(-2), num(1))} {
-			if !f(&program{"split", n, strs}) {
+			if !f(&program{family: "split", node: n, ctxs: strs}) {
 				return
 			}
 		}
@@ -311,14 +344,14 @@ func enumerate(quick bool, f func(p *program) bool) {
 	for _, a := range rv {
 		rctx[0] = append(rctx[0], ctx{G: []string{"", a}, K: caseKeys})
 		if isIntText(a) {
-			if !f(&program{"range", call("@range", lit(a)), noList}) {
+			if !f(&program{family: "range", node: call("@range", lit(a)), ctxs: noList}) {
 				return
 			}
 		}
 		for _, b := range rv {
 			rctx[1] = append(rctx[1], ctx{G: []string{"", a, b}, K: caseKeys})
 			if isIntText(a) && isIntText(b) {
-				if !f(&program{"range", call("@range", lit(a), lit(b)), noList}) {
+				if !f(&program{family: "range", node: call("@range", lit(a), lit(b)), ctxs: noList}) {
 					return
 				}
 			}
@@ -326,10 +359,10 @@ func enumerate(quick bool, f func(p *program) bool) {
 				rctx[2] = append(rctx[2], ctx{G: []string{"", a, b, c}, K: caseKeys})
 				if isIntText(a) && isIntText(b) && isIntText(c) {
 					n := call("@range", lit(a), lit(b), lit(c))
-					if !f(&program{"range", n, noList}) {
+					if !f(&program{family: "range", node: n, ctxs: noList}) {
 						return
 					}
-					if !f(&program{"range", call("@len", n), noList}) {
+					if !f(&program{family: "range", node: call("@len", n), ctxs: noList}) {
 						return
 					}
 				}
@@ -337,10 +370,10 @@ func enumerate(quick bool, f func(p *program) bool) {
 		}
 	}
 	for i, n := range []*Node{call("@range", grp(1)), call("@range", grp(1), grp(2)), call("@range", grp(1), grp(2), grp(3))} {
-		if !f(&program{"range", n, rctx[i]}) {
+		if !f(&program{family: "range", node: n, ctxs: rctx[i]}) {
 			return
 		}
-		if !f(&program{"range", call("@join", n, lit(",")), rctx[i]}) {
+		if !f(&program{family: "range", node: call("@join", n, lit(",")), ctxs: rctx[i]}) {
 			return
 		}
 	}
@@ -363,7 +396,7 @@ func enumerate(quick bool, f func(p *program) bool) {
 			for _, i := range incrs {
 				n := call("@for", s, c, i)
 				for _, r := range []*Node{n, call("@len", n), call("@join", n, lit(","))} {
-					if !f(&program{"for", r, noList}) {
+					if !f(&program{family: "for", node: r, ctxs: noList}) {
 						return
 					}
 				}
@@ -393,7 +426,7 @@ func enumerate(quick bool, f func(p *program) bool) {
 	for _, a := range arrs {
 		in := call("@in", grp(2), a)
 		for _, n := range []*Node{in, call("@in", key("e"), a), call("@in", lit("b"), a), call("if", in, lit("yes"), lit("no"))} {
-			if !f(&program{"in", n, ictx}) {
+			if !f(&program{family: "in", node: n, ctxs: ictx}) {
 				return
 			}
 		}
@@ -404,10 +437,19 @@ func enumerate(quick bool, f func(p *program) bool) {
 		}
 		for _, a := range arrs[:4] {
 			n := call("@filter", s.node, call("@in", grp(0), a))
-			if !f(&program{"in", n, ctxsOf(s)}) {
+			if !f(&program{family: "in", node: n, ctxs: ctxsOf(s)}) {
 				return
 			}
 		}
+	}
+
+	// families "nest" (helpers nested inside sub-expressions) and "size"
+	// (sweeps of the list size), see nest.go and size.go
+	if !enumerateNest(quick, f) {
+		return
+	}
+	if !enumerateSize(quick, f) {
+		return
 	}
 
 	// family "chain", two stacked operations
@@ -416,7 +458,7 @@ func enumerate(quick bool, f func(p *program) bool) {
 		for _, o1 := range ops {
 			n1 := o1.build(s.node)
 			for _, o2 := range ops {
-				if !f(&program{"chain2", o2.build(n1), cs}) {
+				if !f(&program{family: "chain2", node: o2.build(n1), ctxs: cs}) {
 					return
 				}
 			}
